@@ -63,18 +63,47 @@ def _same_outcome(a, b):
     return a["exc"] == b["exc"] and a["msg"] == b["msg"]
 
 
+def _known_pattern_diff(a, b):
+    """Compare two delivered values structurally. Returns (equal_except_pattern, pattern_seen): the values are equal
+    except that, inside batch results, items STARTED in `a` are finished in `b` (and the completion reason may differ)."""
+    if hasattr(a, "all") and hasattr(b, "all"):
+        xs, ys = list(a.all), list(b.all)
+        if len(xs) != len(ys):
+            return False, False
+        seen = False
+        for x, y in zip(xs, ys):
+            if x.status.value == "STARTED" and y.status.value in ("SUCCEEDED", "FAILED"):
+                seen = True
+                continue
+            if x.status != y.status or not teq(x.error, y.error):
+                return False, False
+            ok, s2 = _known_pattern_diff(x.result, y.result)
+            if not ok:
+                return False, False
+            seen = seen or s2
+        if not seen and a.completion_reason != b.completion_reason:
+            return False, False
+        return True, seen
+    if isinstance(a, (list, tuple)) and type(a) is type(b) and len(a) == len(b):
+        seen = False
+        for x, y in zip(a, b):
+            ok, s2 = _known_pattern_diff(x, y)
+            if not ok:
+                return False, False
+            seen = seen or s2
+        return True, seen
+    return teq(a, b), False
+
+
 def replay_children_started_item_pattern(run, path, first, later) -> bool:
-    """True iff `later` differs from `first` only by items that were STARTED in the first result and are finished in the
-    rebuilt one, for an operation recorded with ReplayChildren (the recorded known finding of C09, see known_findings.json)."""
-    op = run.backend.ops.get(run.backend.by_path.get(path, ""), {})
-    if not op.get("ReplayChildren") or not hasattr(first, "all") or not hasattr(later, "all"):
+    """True iff `later` differs from `first` only by batch items (at any nesting depth) that were STARTED in the first
+    result and are finished in the rebuilt one, and a ReplayChildren context is involved (the recorded known finding of
+    C09, see known_findings.json)."""
+    b = run.backend
+    if not any(o.get("ReplayChildren") and (o.get("_path") == path or str(o.get("_path", "")).startswith(path + "/")) for o in b.ops.values()):
         return False
-    a, b_ = list(first.all), list(later.all)
-    if len(a) != len(b_):
-        return False
-    ok = all((x.status == y.status and teq(x.result, y.result) and teq(x.error, y.error)) or (x.status.value == "STARTED" and y.status.value in ("SUCCEEDED", "FAILED"))
-             for x, y in zip(a, b_))
-    return ok and any(x.status.value == "STARTED" and y.status.value != "STARTED" for x, y in zip(a, b_))
+    ok, seen = _known_pattern_diff(first, later)
+    return ok and seen
 
 
 def mon_c02(run, case, stmts):
@@ -92,7 +121,7 @@ def mon_c02(run, case, stmts):
         if not _same_outcome(f, o):
             kind = "exception_class_diverges" if (f["out"] == "exc" and o["out"] == "exc" and f["exc"] != o["exc"]) else "replayed_outcome_differs"
             site = o["kind"] + (":check-raised" if (o["kind"] == "wfcond" and f["out"] == "exc") else "")
-            if o["kind"] in ("map", "parallel") and f["out"] == "value" and o["out"] == "value" and replay_children_started_item_pattern(run, p, f["value"], o["value"]):
+            if o["kind"] in ("map", "parallel", "child") and f["out"] == "value" and o["out"] == "value" and replay_children_started_item_pattern(run, p, f["value"], o["value"]):
                 site = o["kind"] + ":replay-children:started-item-finished-before-parent-record"
             run.v("C02", kind, site, f"{p}: first completion (inv {f['inv']}) delivered {_fmt(f)}, invocation {o['inv']} delivered {_fmt(o)}")
 
